@@ -1,5 +1,5 @@
 P = dict(
-    bin="egv_c08", trace="Trace_C08", level="exploration", wip=True,
+    bin="egv_c08", trace="Trace_C08", level="exploration",
     mc=[dict(module="MC_C08", quick_cfg="MC_C08.cfg", workers=2),
         dict(module="MC_C08", quick_cfg="MC_C08_control.cfg", expect_violation=True, coverage=False, workers=2)],
     features={"quick": [None], "thorough": [None, "fixed_point"]},
